@@ -1,7 +1,7 @@
 CONSTANTS
   Variant = "ok"
   D0 = 19358
-  NDays = 14
+  NDays = 8
   Zones <- QuickZones
   Sods = {0, 86399}
   WeeklyMasks <- AllMasks
